@@ -95,7 +95,7 @@ func (f *mtree) Exec(r *hx.Run, op []string) string {
 		f.lh = append(f.lh, refLeaf(d))
 		root := f.tree.Root()
 		n := len(f.lh)
-		if f.known && (n <= 600 || n%61 == 0 || sizeClass(n) != "odd" && sizeClass(n) != "even") {
+		if f.known && (n <= 600 || (n <= 6000 && n%61 == 0) || sizeClass(n) != "odd" && sizeClass(n) != "even") {
 			if want := refMTH(f.lh); root != want {
 				r.Viol(fmt.Sprintf("C06:root-differs-from-rfc6962:n=%d", n),
 					fmt.Sprintf("after %d appends Root() = %x, RFC 6962 MTH of the appended leaves = %x", n, root[:], want[:]))
@@ -225,6 +225,16 @@ func (f *mtree) Exec(r *hx.Run, op []string) string {
 		if f.tree.Root() != rootBefore {
 			r.Viol(fmt.Sprintf("C06:reload-changes-root:n=%d", size), "root differs after reopening the hash file")
 		}
+		return "ok"
+	case "resume":
+		// harness-side: after a crash the compact state went back to the first n leaves (the hash file kept
+		// the orphaned hashes of the lost appends). Checked against the independent reference before the
+		// oracles are switched on again for the history that follows.
+		n, _ := strconv.Atoi(op[1])
+		if n > len(f.lh) || int(f.tree.TreeSize()) != n || f.tree.Root() != refMTH(f.lh[:n]) {
+			return "no"
+		}
+		f.data, f.lh, f.known = f.data[:n], f.lh[:n], true
 		return "ok"
 	case "incl":
 		m, _ := strconv.ParseUint(op[1], 10, 32)
@@ -572,19 +582,41 @@ func (f *mtree) Gen(r *hx.Run) {
 			r.Do("append " + leaves[n+i])
 		}
 		switch t % 3 {
-		case 0: // the tree state is older than the file (crash between the two commits): stale tail, then re-append
+		case 0: // crash after the hash-file write of some appends but before their compact state was committed:
+			// restart at the committed size with the orphaned hashes still in the file, then a different history
 			r.Do("unmarshal " + snap)
 			r.Do("reopen all")
+			r.Do(fmt.Sprintf("resume %d", n))
 			r.Do("state")
 			r.Do("storeall")
+			leaves = leaves[:n]
 			for i := 0; i < extra+2; i++ {
-				if i < extra && r.Rng.Chance(2, 3) {
-					r.Do("append " + leaves[n+i])
-				} else {
-					r.Do("append " + leaf())
+				l := leaf()
+				if t%2 == 0 && i == 0 {
+					l = hx.Hex(r.Rng.Bytes(7)) // certainly not the lost leaf
 				}
-				r.Do(fmt.Sprintf("incl %d %d", r.Rng.Intn(n+i+1), n+i+1))
-				r.Do(fmt.Sprintf("cons %d %d", 1+r.Rng.Intn(n+i+1), n+i+1))
+				leaves = append(leaves, l)
+				r.Do("append " + l)
+				cur := n + i + 1
+				// every proof read back from the file must verify (oracles in Exec)
+				for m := 0; m < cur; m++ {
+					if cur <= 24 || m%3 == i%3 || m+2 >= cur {
+						r.Do(fmt.Sprintf("incl %d %d", m, cur))
+						r.Do(fmt.Sprintf("cons %d %d", m+1, cur))
+					}
+				}
+				mm := r.Rng.Intn(cur)
+				r.Do(fmt.Sprintf("leafpath %s %d %d", leaves[mm], mm, cur))
+				r.Do(fmt.Sprintf("mroot %d", cur))
+				r.Do(fmt.Sprintf("mroot %d", 1+r.Rng.Intn(cur)))
+			}
+			// earlier sizes on the final tree
+			for k := 0; k < 12; k++ {
+				nn := 1 + r.Rng.Intn(len(leaves))
+				mm := r.Rng.Intn(nn)
+				r.Do(fmt.Sprintf("incl %d %d", mm, nn))
+				r.Do(fmt.Sprintf("cons %d %d", mm+1, nn))
+				r.Do(fmt.Sprintf("leafpath %s %d %d", leaves[mm], mm, nn))
 			}
 			r.Do("storeall")
 		case 1: // file shorter than the tree needs: persistence disabled
@@ -625,7 +657,7 @@ func (f *mtree) Gen(r *hx.Run) {
 	// G: a big tree around powers of two
 	r.Case("big")
 	r.Do("new mem")
-	bigN := r.Pick(4200, 40000)
+	bigN := r.Pick(4200, 150000)
 	var bl []string
 	for n := 1; n <= bigN; n++ {
 		l := hx.Hex(r.Rng.Bytes(8))
